@@ -13,12 +13,12 @@ import copy
 import io
 import os
 
-from .. import gen_exec, ir
+from .. import gen_exec, ir, interloper
 from .. import resolve as R
 from ..core import Stats, Violation, stream, digest_of
 from ..driver import RunResult
 from ..env import Env
-from ..realrun import run_real, run_ref, compare_outcomes, norm_events
+from ..realrun import run_real, run_ref, compare_outcomes, norm_events, interloper_probe
 
 PROP = 'C17'
 LEVEL = 'exploration'
@@ -64,6 +64,9 @@ def gen(seed, tier, extra=None):
     plan['seed'] = seed
     plan['family'] = 'embed'
     plan['main_from_text'] = rng.random() < 0.4    # the top-level script goes through the real parser too
+    ri = stream(seed, 'interloper')
+    if ri.random() < 0.3:
+        plan['interloper_spec'] = interloper.spec(ri, sites=('fetch', 'fetch', 'hostTick', 'hostNext', 'log'), max_occ=4)
     return plan
 
 
@@ -122,6 +125,12 @@ def run(plan, stats):
             viols.append(v)
         return RunResult(viols, digest_of(dig))
     account(plan, stats, real_b, [])
+    # nested independent uses of the library (with their own includes and base) inside fetchFn / host / log callbacks
+    viols.extend(interloper_probe(base_plan, stats, PROP, real_b,
+                                  lambda p: run_real(p, limit=0, sim_options=True, max_starts=20000,
+                                                     model=copy.deepcopy(real_model))))
+    if viols:
+        return RunResult(viols, digest_of(dig))
     if plan.get('fetch_faults'):
         ref_f = run_ref(plan, limit=0, cap=3000)
         real_f = run_real(plan, limit=0, sim_options=True, max_starts=20000, model=copy.deepcopy(real_model))
